@@ -1,18 +1,27 @@
 #!/venv/bin/python
-"""Emit coq/gen/Formulas.v: the arithmetic of homonim's closed-form statistics, translated expression by expression from the
-Python source of /repo's current working tree (ast), as Gallina terms over Q.
+"""Emit coq/gen/Formulas.v: the arithmetic of homonim's closed-form statistics, translated from the Python source of /repo's current
+working tree (ast) into Gallina terms over Q.
 
-What is translated (each becomes `Definition gen_<name> (<free variables> : Q) : Q := <term>.`):
-  kernel_model._fit_gain_offset     m_num_array, m_den_array, the np.divide numerators / denominators (gain, offset, re-estimated gain)
-  kernel_model._r2_array            ss_tot_array, both ss_res_array branches, the `ss_res_array *= mask_sum` scaling, R2 = 1 - res / tot
+The translator works on the *meaning* of expressions, not on the spelling of variables (translate/resolve.py: a def-use pass that
+replaces every local name by what it stands for): it starts from what a function stores / returns, resolves that back to the function's
+inputs, and recognises the inputs by what they are -
+  cv.boxFilter(<source pixels>, ...) = X, cv.sqrBoxFilter(<reference pixels>, ...) = YY, <ref>.mask & <src>.mask = the joint mask,
+  band 0 / 1 / 2 of the returned parameter array = gain / offset / R2, ...
+so renaming a local, extracting or inlining a temporary, reordering independent statements or adding logging does not change the output,
+while a changed operand, sign, factor, guard or statement order does.
+
+What is translated (each becomes `Definition gen_<name> (<fixed argument list> : Q) : Q := <term>.`, boolean structure becomes a boolean
+Gallina function of named atoms):
+  kernel_model._fit_gain_offset     gain = num / den, offset, the keep rule, in-painting, re-estimated gain, their guards and order
+  kernel_model._r2_array            TSS, both RSS branches incl. the scaling by N, R2 = 1 - RSS / TSS, the roles its callers pass
   kernel_model._fit_gain            the gain division
-  kernel_model._fit_gain_blk_offset normalisation of the source, un-normalisation of gain / offset
+  kernel_model._fit_gain_blk_offset normalisation of the source, final gain / offset after un-normalisation (order matters)
   kernel_model.KernelModel.apply    gain * src + offset
-  compare.get_band_stats            means, Pearson numerator, the two arguments of the square roots, RMSE argument, rRMSE denominator
-  stats._get_image_stats            mean, variance (argument of the square root), in-paint percentage
-Boolean structure that matters (which mask guards a division, the in-paint keep rule) is emitted as a list of atoms.
+  every cv.boxFilter / sqrBoxFilter call: un-normalised, constant border, ksize = kernel_shape reversed
+  compare.get_band_stats / get_block_sums, stats._get_image_stats / get_block_sums
 Anything the translator does not recognise is an error (fail closed): the tie is then reported as broken."""
 import ast
+import copy
 import os
 import sys
 from pathlib import Path
@@ -20,315 +29,772 @@ from pathlib import Path
 VERIF = Path(__file__).resolve().parents[1]
 REPO = Path(os.environ.get('HOMONIM_REPO', '/repo'))
 OUT = VERIF / 'coq' / 'gen' / 'Formulas.v'
+sys.path.insert(0, str(VERIF))
+from translate.resolve import Flow, helper_inliner as generic_inliner      # noqa: E402
 
 
 class TranslatorError(Exception):
     pass
 
 
-# source expression text -> Coq variable
-KERNEL_NAMES = {
-    'mask_sum': 'N', 'src_sum': 'X', 'ref_sum': 'Y', 'src_ref_sum': 'XY', 'src2_sum': 'XX', 'ref2_sum': 'YY',
-    'param_array[0]': 'm', 'param_array[1]': 'c', 'param_ra.array[0]': 'm', 'param_ra.array[1]': 'c', 'param_ra.array[2]': 'r2',
-    'm_num_array': 'num', 'm_den_array': 'den', 'ss_res_array': 'res', 'ss_tot_array': 'tot', 'dest_array': 'd',
-    'src_ra.array': 'x', 'norm_model[0]': 'na', 'norm_model[1]': 'nb', 'self._r2_inpaint_thresh': 't',
-}
-COMPARE_NAMES = {'src_sum': 'X', 'ref_sum': 'Y', 'src2_sum': 'XX', 'ref2_sum': 'YY', 'src_ref_sum': 'XY', 'res2_sum': 'RR', 'mask_sum': 'N',
-                 'src_mean': 'mx', 'ref_mean': 'my', 'rmse': 'rmse'}
-STATS_NAMES = {"band_accum['sum']": 'S', "band_accum['sum2']": 'S2', "band_accum['n']": 'n', "band_accum['inpaint_sum']": 'I'}
+def U(n):
+    return ast.unparse(n)
 
 
-class Expr:
-    """Python arithmetic expression -> Gallina Q term; collects the free variables it uses."""
+def name(s):
+    return ast.Name(id=s, ctx=ast.Load())
 
-    def __init__(self, names):
-        self.names = names
-        self.used = []
 
-    def var(self, v):
-        if v not in self.used:
-            self.used.append(v)
-        return v
+# ---------------------------------------------------------------------------------------------- symbolisation
+def symbolise(node, matchers):
+    """Replace (top-down) every sub-expression recognised by one of `matchers` (node -> replacement ast or None) by its replacement."""
+    class T(ast.NodeTransformer):
+        def visit(self, n):
+            for m in matchers:
+                r = m(n)
+                if r is not None:
+                    return r
+            return self.generic_visit(n)
+    return T().visit(copy.deepcopy(node))
+
+
+class QExpr:
+    """symbolised Python arithmetic -> Gallina Q term over the allowed variables"""
+
+    def __init__(self, allowed):
+        self.allowed = allowed
 
     def tr(self, n):
-        txt = ast.unparse(n)
-        if txt in self.names:
-            return self.var(self.names[txt])
-        if isinstance(n, ast.Constant) and isinstance(n.value, (int, float)) and float(n.value).is_integer():
+        if isinstance(n, ast.Name):
+            if n.id in self.allowed:
+                return n.id
+            raise TranslatorError(f'expression depends on `{n.id}`, which is none of the expected quantities {self.allowed}')
+        if isinstance(n, ast.Constant) and isinstance(n.value, (int, float)) and not isinstance(n.value, bool) and float(n.value).is_integer():
             return str(int(n.value))
         if isinstance(n, ast.BinOp):
             if isinstance(n.op, ast.Pow):
                 if isinstance(n.right, ast.Constant) and n.right.value == 2:
                     a = self.tr(n.left)
                     return f'({a} * {a})'
-                raise TranslatorError(f'unsupported power in {txt}')
+                raise TranslatorError(f'unsupported power in {U(n)}')
             op = {ast.Add: '+', ast.Sub: '-', ast.Mult: '*', ast.Div: '/'}.get(type(n.op))
             if op is None:
-                raise TranslatorError(f'unsupported operator in {txt}')
+                raise TranslatorError(f'unsupported operator in {U(n)}')
             return f'({self.tr(n.left)} {op} {self.tr(n.right)})'
         if isinstance(n, ast.UnaryOp) and isinstance(n.op, ast.USub):
             return f'(- {self.tr(n.operand)})'
-        if isinstance(n, ast.Call) and ast.unparse(n.func) == 'np.prod' and ast.unparse(n.args[0]) in ('param_array[:2]',):
-            return f'({self.var("m")} * {self.var("c")})'
-        raise TranslatorError(f'unsupported expression: {txt}')
+        if isinstance(n, ast.UnaryOp) and isinstance(n.op, ast.UAdd):
+            return self.tr(n.operand)
+        raise TranslatorError(f'unsupported expression: {U(n)[:200]}')
 
 
-def definition(name, names, node, sig):
-    """Every definition of a group takes the group's full, fixed argument list (so that a rewrite of an expression that is
-    algebraically the same never changes a signature); a variable outside the group is an error."""
-    e = Expr(names)
-    term = e.tr(node)
-    extra = [v for v in e.used if v not in sig]
-    if extra:
-        raise TranslatorError(f'gen_{name}: expression uses {extra}, not among the expected quantities {sig}: {ast.unparse(node)}')
-    return f'Definition gen_{name} ({" ".join(sig)} : Q) : Q := {term}.', list(sig)
+class BExpr:
+    """symbolised NumPy / Python boolean expression -> Gallina bool term over named atoms"""
+
+    def __init__(self, atoms):
+        self.atoms = atoms          # list of (predicate node -> bool, atom name)
+
+    def tr(self, n):
+        for pred, nm in self.atoms:
+            if pred(n):
+                return nm
+        if isinstance(n, ast.BinOp) and isinstance(n.op, (ast.BitAnd, ast.BitOr)):
+            return f'({self.tr(n.left)} {"&&" if isinstance(n.op, ast.BitAnd) else "||"} {self.tr(n.right)})'
+        if isinstance(n, ast.BoolOp):
+            return '(' + (' && ' if isinstance(n.op, ast.And) else ' || ').join(self.tr(v) for v in n.values) + ')'
+        if isinstance(n, ast.UnaryOp) and isinstance(n.op, (ast.Invert, ast.Not)):
+            return f'(negb {self.tr(n.operand)})'
+        raise TranslatorError(f'unsupported condition: {U(n)[:200]}')
 
 
-def find_func(tree, cls, name, inner=None):
+def find_func(tree, cls, fname, inner=None):
     for node in tree.body:
         if isinstance(node, ast.ClassDef) and node.name == cls:
             for f in node.body:
-                if isinstance(f, ast.FunctionDef) and f.name == name:
+                if isinstance(f, ast.FunctionDef) and f.name == fname:
                     if inner is None:
                         return f
                     for g in ast.walk(f):
                         if isinstance(g, ast.FunctionDef) and g.name == inner:
                             return g
-    raise TranslatorError(f'{cls}.{name}{"." + inner if inner else ""} not found')
+    raise TranslatorError(f'{cls}.{fname}{"." + inner if inner else ""} not found')
 
 
-def assigns(func, target):
-    """value nodes of `target = value` statements, in source order"""
-    out = []
-    for n in ast.walk(func):
-        if isinstance(n, ast.Assign) and len(n.targets) == 1 and ast.unparse(n.targets[0]) == target:
-            out.append(n.value)
-    return sorted(out, key=lambda v: v.lineno)
+def the_return(f):
+    r = [n for n in ast.walk(f) if isinstance(n, ast.Return) and n.value is not None]
+    if len(r) != 1:
+        raise TranslatorError(f'{f.name}: expected exactly one return statement, found {len(r)}')
+    return r[0]
 
 
-def divides(func):
-    """np.divide(a, b, out=T, where=W) calls: (target text, numerator, denominator, where text), in source order"""
-    out = []
-    for c in ast.walk(func):
-        if isinstance(c, ast.Call) and ast.unparse(c.func) == 'np.divide':
-            kw = {k.arg: k.value for k in c.keywords}
-            if len(c.args) != 2 or 'out' not in kw or 'where' not in kw:
-                raise TranslatorError(f'np.divide with an unexpected signature: {ast.unparse(c)}')
-            out.append((ast.unparse(kw['out']), c.args[0], c.args[1], ast.unparse(kw['where']), c.lineno))
-    return sorted(out, key=lambda t: t[-1])
+def is_const(n, v):
+    return isinstance(n, ast.Constant) and not isinstance(n.value, bool) and n.value == v
 
 
+def call_kw(c):
+    return {k.arg: k.value for k in c.keywords if k.arg is not None}
+
+
+def dict_items(n):
+    """{key: value node} of `dict(k=v, ...)` or `{'k': v, ...}`; None for anything else"""
+    if isinstance(n, ast.Call) and U(n.func) == 'dict' and not n.args and all(k.arg is not None for k in n.keywords):
+        return call_kw(n)
+    if isinstance(n, ast.Dict) and all(isinstance(k, ast.Constant) and isinstance(k.value, str) for k in n.keys):
+        return {k.value: v for k, v in zip(n.keys, n.values)}
+    return None
+
+
+# ---------------------------------------------------------------------------------------------- kernel sums
 SUMS = ['N', 'X', 'Y', 'XY', 'XX', 'YY', 'm', 'c']        # kernel sums + the fitted pair
-WRAP = ['num', 'den', 'res', 'tot']                        # np.divide wrappers around previously computed arrays
 GBO = ['x', 'na', 'nb', 'm']
 APPLY = ['m', 'c', 'x']
+ATOMS = '(r2gt mpos joint : bool)'
 
 
-def generate():
-    out, sigs = [], {}
+class BoxCensus:
+    """every box filter call met while symbolising: its un-normalised / constant-border / reversed-kernel-shape arguments are checked"""
 
-    def emit(name, names, node, sig=SUMS):
-        text, vs = definition(name, names, node, sig)
-        out.append(text)
-        sigs[name] = vs
+    def __init__(self):
+        self.n = 0
+        self.bad = []
 
-    km = ast.parse((REPO / 'homonim' / 'kernel_model.py').read_text())
-    # ---------------------------------------------------------------- _fit_gain_offset
+    def check(self, call):
+        self.n += 1
+        kw = {}
+        for k in call.keywords:
+            if k.arg is None:          # **dict(...)
+                if isinstance(k.value, ast.Call) and U(k.value.func) == 'dict':
+                    kw.update(call_kw(k.value))
+                elif isinstance(k.value, ast.Dict):
+                    kw.update({kk.value: vv for kk, vv in zip(k.value.keys, k.value.values) if isinstance(kk, ast.Constant)})
+                else:
+                    self.bad.append('filter arguments: ' + U(k.value))
+            else:
+                kw[k.arg] = k.value
+        ok = len(call.args) == 3 and isinstance(call.args[1], ast.UnaryOp) and is_const(call.args[1].operand, 1) \
+            and isinstance(kw.get('normalize'), ast.Constant) and kw['normalize'].value is False \
+            and U(kw.get('borderType', name('?'))) == 'cv.BORDER_CONSTANT' and set(kw) <= {'normalize', 'borderType'}
+        ks = U(call.args[2]) if len(call.args) == 3 else ''
+        ok = ok and ks in ('tuple(kernel_shape)[::-1]', 'kernel_shape[::-1]', 'tuple(kernel_shape[::-1])', 'self._kernel_shape[::-1]',
+                           'tuple(self._kernel_shape)[::-1]', 'tuple(self._kernel_shape[::-1])')
+        if not ok:
+            self.bad.append(U(call)[:160])
+
+
+def pixel_matchers(src_txt, ref_txt, joint_pred):
+    """matchers on pixel level: source pixels -> x, reference pixels -> y, the joint mask as numbers -> one"""
+    def m(n):
+        t = U(n) if isinstance(n, (ast.Attribute, ast.Name, ast.Subscript)) else None
+        if t is not None and t in src_txt:
+            return name('x')
+        if t is not None and t in ref_txt:
+            return name('y')
+        if isinstance(n, ast.Call) and isinstance(n.func, ast.Attribute) and n.func.attr == 'astype' and joint_pred(n.func.value):
+            return name('one')
+        return None
+    return [m]
+
+
+def box_matcher(pix, census):
+    def m(n):
+        if isinstance(n, ast.Call) and U(n.func) in ('cv.boxFilter', 'cv.sqrBoxFilter') and n.args:
+            t = symbolise(n.args[0], pix)
+            sq = U(n.func) == 'cv.sqrBoxFilter'
+            kind = None
+            if isinstance(t, ast.Name) and t.id in ('x', 'y', 'one'):
+                kind = {'x': 'XX' if sq else 'X', 'y': 'YY' if sq else 'Y', 'one': None if sq else 'N'}[t.id]
+            elif isinstance(t, ast.BinOp) and isinstance(t.op, ast.Mult) and not sq and \
+                    sorted(U(a) for a in (t.left, t.right)) == ['x', 'y']:
+                kind = 'XY'
+            elif isinstance(t, ast.BinOp) and isinstance(t.op, ast.Pow) and is_const(t.right, 2) and not sq and U(t.left) in ('x', 'y'):
+                kind = 'XX' if U(t.left) == 'x' else 'YY'
+            elif isinstance(t, ast.BinOp) and isinstance(t.op, ast.Mult) and not sq and U(t.left) == U(t.right) and U(t.left) in ('x', 'y'):
+                kind = 'XX' if U(t.left) == 'x' else 'YY'
+            if kind is None:
+                raise TranslatorError(f'box filter of an unrecognised quantity: {U(n.args[0])[:160]}')
+            census.check(n)
+            return name(kind)
+        return None
+    return m
+
+
+def joint_pred_for(src_p, ref_p):
+    want = sorted([f'{src_p}.mask', f'{ref_p}.mask'])
+
+    def pred(n):
+        return isinstance(n, ast.BinOp) and isinstance(n.op, ast.BitAnd) and sorted([U(n.left), U(n.right)]) == want
+    return pred
+
+
+def band_matcher(ret_txt, attr='array'):
+    """<returned parameter array>.array[k] -> m / c / r2"""
+    def m(n):
+        if isinstance(n, ast.Subscript) and isinstance(n.value, ast.Attribute) and n.value.attr == attr and U(n.value.value) == ret_txt \
+                and isinstance(n.slice, ast.Constant) and n.slice.value in (0, 1, 2):
+            return name(('m', 'c', 'r2')[n.slice.value])
+        return None
+    return m
+
+
+def zeroing_ok(stores, src_p, ref_p, joint_pred):
+    """both pixel arrays are zeroed outside the joint mask (before anything else is stored)"""
+    seen = set()
+    for (_s, tgt, kind, val) in stores:
+        t = ast.parse(tgt, mode='eval').body
+        if kind == 'assign' and isinstance(t, ast.Subscript) and U(t.value) in (f'{src_p}.array', f'{ref_p}.array') \
+                and isinstance(t.slice, ast.UnaryOp) and isinstance(t.slice.op, ast.Invert) and joint_pred(t.slice.operand) and is_const(val, 0):
+            seen.add(U(t.value))
+    return seen == {f'{src_p}.array', f'{ref_p}.array'}
+
+
+def divide_parts(call):
+    kw = call_kw(call)
+    if U(call.func) != 'np.divide' or len(call.args) != 2 or 'out' not in kw or 'where' not in kw:
+        raise TranslatorError(f'np.divide with an unexpected signature: {U(call)[:160]}')
+    return call.args[0], call.args[1], kw['where']
+
+
+SEMANTIC = {'_r2_array', '_fit_gain', '_fit_gain_offset', '_fit_gain_blk_offset', '_fit_block_norm', 'fit', 'apply', '_full_coverage_mask',
+            '_get_resampling'}
+
+
+def helper_inliner(tree, cls):
+    """calls of other (helper) methods of the same class or of module-level functions are looked through; the methods the translator
+    knows by name (SEMANTIC) are not"""
+    methods, funcs = {}, {}
+    for node in tree.body:
+        if isinstance(node, ast.ClassDef) and node.name == cls:
+            methods = {f.name: f for f in node.body if isinstance(f, ast.FunctionDef)}
+        if isinstance(node, ast.FunctionDef):
+            funcs[node.name] = node
+
+    def simple(g):
+        return not any(isinstance(n, (ast.For, ast.While, ast.Try, ast.With, ast.Yield, ast.YieldFrom, ast.Lambda)) for n in ast.walk(g))
+
+    def inline(call):
+        f = call.func
+        if isinstance(f, ast.Attribute) and isinstance(f.value, ast.Name) and f.value.id in ('self', cls) and f.attr in methods \
+                and f.attr not in SEMANTIC and simple(methods[f.attr]):
+            return methods[f.attr]
+        if isinstance(f, ast.Name) and f.id in funcs and simple(funcs[f.id]):
+            return funcs[f.id]
+        return None
+    return inline
+
+
+def kernel_part(km, out):
+    census = BoxCensus()
+    emitted = {}
+    inl = helper_inliner(km, 'KernelModel')
+
+    def emit(nm, node, sig):
+        out.append(f'Definition gen_{nm} ({" ".join(sig)} : Q) : Q := {QExpr(sig).tr(node)}.')
+        emitted[nm] = True
+
+    # ================================================================= _fit_gain_offset
     f = find_func(km, 'KernelModel', '_fit_gain_offset')
-    for tgt, nm in (('m_num_array', 'go_num'), ('m_den_array', 'go_den')):
-        v = assigns(f, tgt)
-        if len(v) != 1:
-            raise TranslatorError(f'{tgt}: expected exactly one assignment in _fit_gain_offset')
-        emit(nm, KERNEL_NAMES, v[0])
-    dv = divides(f)
-    if [d[0] for d in dv] != ['param_ra.array[0]', 'param_ra.array[1]', 'param_ra.array[0]']:
-        raise TranslatorError(f'_fit_gain_offset: unexpected np.divide targets {[d[0] for d in dv]}')
-    for (tgt, a, b, where, _), nm in zip(dv, ('go_gain', 'go_offset', 'go_regain')):
-        emit(nm + '_n', KERNEL_NAMES, a, WRAP if nm == 'go_gain' else SUMS)
-        emit(nm + '_d', KERNEL_NAMES, b, WRAP if nm == 'go_gain' else SUMS)
-        out.append(f'Definition gen_{nm}_where : string := "{where}".')
-    # the keep rule: r2_mask = (R2 > thresh) & (gain > 0) & mask
-    rm = assigns(f, 'r2_mask')
-    if len(rm) != 2:
-        raise TranslatorError('_fit_gain_offset: expected two r2_mask assignments')
+    fl = Flow(f, inline=inl)
+    if len(fl.params) < 3:
+        raise TranslatorError('_fit_gain_offset: (self, source, reference, ...) expected')
+    sp, rp = fl.params[1], fl.params[2]
+    jp = joint_pred_for(sp, rp)
+    ret = fl.text(the_return(f).value)
+    pix = pixel_matchers({f'{sp}.array'}, {f'{rp}.array'}, jp)
+    thresh_txt = 'self._r2_inpaint_thresh'
+    M = [box_matcher(pix, census), band_matcher(ret), lambda n: name('joint') if jp(n) else None]
+    atoms = BExpr([(lambda n: isinstance(n, ast.Name) and n.id == 'joint', 'joint'),
+                   (lambda n: isinstance(n, ast.Compare) and len(n.ops) == 1 and isinstance(n.ops[0], ast.Gt) and U(n.left) == 'r2'
+                    and U(n.comparators[0]) == thresh_txt, 'r2gt'),
+                   (lambda n: isinstance(n, ast.Compare) and len(n.ops) == 1 and isinstance(n.ops[0], ast.Gt) and U(n.left) == 'm'
+                    and is_const(n.comparators[0], 0), 'mpos')])
+    stores = fl.stores()
+    events = []          # (position in execution order, kind, payload)
+    pos = {id(s): i for i, s in enumerate(fl.order)}
+    for (s, tgt, kind, val) in stores:
+        if kind == 'call' and U(val.func) == 'np.divide':
+            events.append((pos[id(s)], 'div', tgt, val))
+        elif kind == 'assign' and isinstance(val, ast.Call) and U(val.func) == 'fillnodata':
+            events.append((pos[id(s)], 'fill', tgt, val))
+        elif kind == 'assign' and tgt == f'{ret}.mask':
+            events.append((pos[id(s)], 'remask', tgt, val))
+    r2calls = [s for s in fl.order if isinstance(s, ast.Expr) and isinstance(s.value, ast.Call) and U(s.value.func) == 'self._r2_array']
+    for s in r2calls:
+        events.append((pos[id(s)], 'r2', '', fl.resolve(s.value, s)))
+    events.sort(key=lambda e: e[0])
+    kinds = [(e[1], e[2]) for e in events]
+    want = [('div', f'{ret}.array[0]'), ('div', f'{ret}.array[1]'), ('r2', ''), ('fill', f'{ret}.array[1]'), ('remask', f'{ret}.mask'),
+            ('div', f'{ret}.array[0]')]
+    if kinds != want:
+        raise TranslatorError(f'_fit_gain_offset: unexpected sequence of stores into the parameter array: {kinds}')
+    (g, o, r2c, fill, remask, rg) = events
+    gn, gd, gw = divide_parts(g[3])
+    emit('go_num', symbolise(gn, M), SUMS)
+    emit('go_den', symbolise(gd, M), SUMS)
+    out.append(f'Definition gen_go_gain_where {ATOMS} : bool := {atoms.tr(symbolise(gw, M))}.')
+    on, od, ow = divide_parts(o[3])
+    emit('go_offset_n', symbolise(on, M), SUMS)
+    emit('go_offset_d', symbolise(od, M), SUMS)
+    out.append(f'Definition gen_go_offset_where {ATOMS} : bool := {atoms.tr(symbolise(ow, M))}.')
+    fc = fill[3]
+    if len(fc.args) != 2 or fc.keywords or U(fc.args[0]) != f'{ret}.array[1]':
+        raise TranslatorError(f'_fit_gain_offset: fillnodata call {U(fc)[:160]}')
+    out.append(f'Definition gen_go_keep {ATOMS} : bool := {atoms.tr(symbolise(fc.args[1], M))}.      (* fillnodata keeps these pixels *)')
+    out.append(f'Definition gen_go_remask {ATOMS} : bool := {atoms.tr(symbolise(remask[3], M))}.')
+    rn, rd, rw = divide_parts(rg[3])
+    emit('go_regain_n', symbolise(rn, M), SUMS)
+    emit('go_regain_d', symbolise(rd, M), SUMS)
+    out.append(f'Definition gen_go_regain_where {ATOMS} : bool := {atoms.tr(symbolise(rw, M))}.')
+    # in-painting only with a threshold; R2 whenever it is asked for or needed by in-painting
+    def enclosing_tests(stmt):
+        tests = []
+        for n in ast.walk(f):
+            if isinstance(n, ast.If) and any(stmt is m for b in n.body for m in ast.walk(b)):
+                tests.append(fl.text(n.test, n))
+        return sorted(tests)
+    cond_fill = enclosing_tests(fl.order[fill[0]])
+    cond_r2 = enclosing_tests(r2calls[0])
+    ok_guard = cond_fill == [f'{thresh_txt} is not None'] and cond_r2 in (
+        [f'self._find_r2 or {thresh_txt} is not None'], [f'{thresh_txt} is not None or self._find_r2'])
+    out.append(f'Definition gen_go_guards_ok : bool := {"true" if ok_guard else "false"}.   (* in-painting iff a threshold is set; R2 iff asked for or needed *)')
+    out.append(f'Definition gen_go_zeroing_ok : bool := {"true" if zeroing_ok(stores, sp, rp, jp) else "false"}.')
+    # the roles _fit_gain_offset hands to _r2_array
+    roles_go = finish_roles(r2_call_roles(r2c[3], M), sp, rp)
 
-    def atoms(n):
-        if isinstance(n, ast.BinOp) and isinstance(n.op, ast.BitAnd):
-            return atoms(n.left) + atoms(n.right)
-        return [ast.unparse(n)]
-    keep = sorted(atoms(rm[0]))
-    out.append('Definition gen_keep_atoms : list string := [%s].' % '; '.join(f'"{a}"' for a in keep))
-    out.append(f'Definition gen_fill_mask : string := "{ast.unparse(rm[1])}".')
-    # ---------------------------------------------------------------- _r2_array
-    f = find_func(km, 'KernelModel', '_r2_array')
-    v = assigns(f, 'ss_tot_array')
-    if len(v) != 1:
-        raise TranslatorError('_r2_array: ss_tot_array')
-    emit('ss_tot', KERNEL_NAMES, v[0])
-    v = assigns(f, 'ss_res_array')
-    if len(v) != 2:
-        raise TranslatorError('_r2_array: expected two ss_res_array assignments (gain-offset, gain)')
-    emit('ss_res_go', KERNEL_NAMES, v[0])
-    emit('ss_res_g', KERNEL_NAMES, v[1])
-    aug = [n for n in ast.walk(f) if isinstance(n, ast.AugAssign) and ast.unparse(n.target) == 'ss_res_array']
-    if len(aug) != 1 or not isinstance(aug[0].op, ast.Mult):
-        raise TranslatorError('_r2_array: expected `ss_res_array *= <factor>` exactly once')
-    emit('ss_res_scale', KERNEL_NAMES, aug[0].value)
-    dv = divides(f)
-    if len(dv) != 1 or dv[0][0] != 'dest_array':
-        raise TranslatorError('_r2_array: expected one np.divide into dest_array')
-    emit('r2_n', KERNEL_NAMES, dv[0][1], WRAP)
-    emit('r2_d', KERNEL_NAMES, dv[0][2], WRAP)
-    sub = [c for c in ast.walk(f) if isinstance(c, ast.Call) and ast.unparse(c.func) == 'np.subtract']
-    if len(sub) != 1 or ast.unparse(sub[0].args[0]) != '1' or ast.unparse(sub[0].args[1]) != 'dest_array':
-        raise TranslatorError('_r2_array: expected np.subtract(1, dest_array, ...)')
-    out.append('Definition gen_r2_final (d : Q) : Q := (1 - d).')
-    # ---------------------------------------------------------------- _fit_gain
+    # ================================================================= _fit_gain
     f = find_func(km, 'KernelModel', '_fit_gain')
-    dv = divides(f)
-    if len(dv) != 1 or dv[0][0] != 'param_ra.array[0]':
+    fl = Flow(f, inline=inl)
+    sp, rp = fl.params[1], fl.params[2]
+    jp = joint_pred_for(sp, rp)
+    ret = fl.text(the_return(f).value)
+    pix = pixel_matchers({f'{sp}.array'}, {f'{rp}.array'}, jp)
+    M = [box_matcher(pix, census), band_matcher(ret), lambda n: name('joint') if jp(n) else None]
+    stores = fl.stores()
+    dv = [(s, t, v) for (s, t, k, v) in stores if k == 'call' and U(v.func) == 'np.divide']
+    if len(dv) != 1 or dv[0][1] != f'{ret}.array[0]':
         raise TranslatorError('_fit_gain: expected one np.divide into the gain band')
-    emit('g_gain_n', KERNEL_NAMES, dv[0][1])
-    emit('g_gain_d', KERNEL_NAMES, dv[0][2])
-    # ---------------------------------------------------------------- _fit_gain_blk_offset
+    gn, gd, gw = divide_parts(dv[0][2])
+    emit('g_gain_n', symbolise(gn, M), SUMS)
+    emit('g_gain_d', symbolise(gd, M), SUMS)
+    out.append(f'Definition gen_g_gain_where {ATOMS} : bool := {atoms.tr(symbolise(gw, M))}.')
+    zo = [(t, v) for (_s, t, k, v) in stores if k == 'assign' and t.startswith(f'{ret}.array[1')]
+    okz = len(zo) == 1 and is_const(zo[0][1], 0) and zo[0][0] in (f'{ret}.array[1, {rp}.mask & {sp}.mask]', f'{ret}.array[1, {sp}.mask & {rp}.mask]')
+    out.append(f'Definition gen_g_offset_zero_ok : bool := {"true" if okz else "false"}.      (* offset := 0 on the joint mask *)')
+    out.append(f'Definition gen_g_zeroing_ok : bool := {"true" if zeroing_ok(stores, sp, rp, jp) else "false"}.')
+    r2calls = [s for s in fl.order if isinstance(s, ast.Expr) and isinstance(s.value, ast.Call) and U(s.value.func) == 'self._r2_array']
+    if len(r2calls) != 1:
+        raise TranslatorError('_fit_gain: expected one call of _r2_array')
+    roles_g = finish_roles(r2_call_roles(fl.resolve(r2calls[0].value, r2calls[0]), M), sp, rp)
+
+    # ================================================================= _r2_array
+    f = find_func(km, 'KernelModel', '_r2_array')
+    fl = Flow(f, inline=inl)
+    P = fl.params          # self, ref pixels, src pixels, parameter bands, then keywords
+    if len(P) < 4:
+        raise TranslatorError('_r2_array: (self, ref_array, src_array, param_array, ...) expected')
+    # roles by position / keyword, as both callers pass them
+    role = {}
+    for roles in (roles_go, roles_g):
+        for k, v in roles.items():
+            pn = P[k + 1] if isinstance(k, int) else k
+            if pn not in P:
+                raise TranslatorError(f'_r2_array has no parameter {pn}')
+            if role.setdefault(pn, v) != v:
+                raise TranslatorError(f'_r2_array: callers disagree on {pn}: {role[pn]} vs {v}')
+    refp = [p for p, v in role.items() if v == 'y']
+    srcp = [p for p, v in role.items() if v == 'x']
+    parp = [p for p, v in role.items() if v.startswith('params')]
+    if len(refp) != 1 or len(srcp) != 1 or len(parp) != 1:
+        raise TranslatorError(f'_r2_array: roles {role}')
+    pix = pixel_matchers({srcp[0]}, {refp[0]}, lambda n: isinstance(n, ast.Name) and role.get(n.id) == 'joint')
+    bm = box_matcher(pix, census)
+
+    def par(n):
+        if isinstance(n, ast.Subscript) and U(n.value) == parp[0] and isinstance(n.slice, ast.Constant) and n.slice.value in (0, 1):
+            return name(('m', 'c')[n.slice.value])
+        if isinstance(n, ast.Call) and U(n.func) == 'np.prod' and n.args and U(n.args[0]) == f'{parp[0]}[:2]' and \
+                {k: U(v) for k, v in call_kw(n).items()} in ({'axis': '0'}, {}):
+            return ast.BinOp(left=name('m'), op=ast.Mult(), right=name('c'))
+        return None
+
+    def rolem(n):
+        if isinstance(n, ast.Name) and role.get(n.id) in ('N', 'X', 'Y', 'XY', 'XX', 'YY', 'joint'):
+            return name(role[n.id])
+        return None
+    M2 = [bm, par, rolem]
+    # defaults computed inside must play the role the callers assume for that parameter; parameters no caller passes get their role from the default
+    for pn, d in fl.default_of.items():
+        if pn in ('kernel_shape',) or U(d) == 'self._kernel_shape':
+            continue
+        if role.get(pn) in ('N', 'X', 'Y', 'XY', 'XX', 'YY') or pn not in role:
+            if isinstance(d, ast.Call) and U(d.func) in ('cv.boxFilter', 'cv.sqrBoxFilter'):
+                got = U(symbolise(d, M2))
+                if role.setdefault(pn, got) != got:
+                    raise TranslatorError(f'_r2_array: default of {pn} computes {got}, callers pass {role[pn]}')
+    dv = [(s, t, v) for (s, t, k, v) in fl.stores() if k == 'call']
+    if [U(v.func) for (_s, _t, v) in dv] != ['np.divide', 'np.subtract'] or dv[0][1] != dv[1][1]:
+        raise TranslatorError('_r2_array: expected np.divide then np.subtract into the same destination')
+    dest = dv[0][1]
+    if role.get(dest) not in (None, 'r2') or U(the_return(f).value) != dest and fl.text(the_return(f).value) != dest:
+        raise TranslatorError('_r2_array: destination / return value')
+    rn, rd, rw = divide_parts(dv[0][2])
+    emit('ss_tot', symbolise(rd, M2), SUMS)
+    out.append(f'Definition gen_r2_where {ATOMS} : bool := {atoms.tr(symbolise(rw, M2))}.')
+    sub = dv[1][2]
+    kw = call_kw(sub)
+    oks = len(sub.args) == 2 and is_const(sub.args[0], 1) and U(sub.args[1]) == dest and U(kw.get('out', name('?'))) == dest \
+        and atoms.tr(symbolise(kw.get('where', name('?')), M2)) == 'joint'
+    if not oks:
+        raise TranslatorError(f'_r2_array: expected np.subtract(1, dest, out=dest, where=mask): {U(sub)[:160]}')
+    out.append('Definition gen_r2_final (d : Q) : Q := (1 - d).')
+    # numerator: either fully resolved, or a name assigned in both branches of the model test and then scaled
+    def branches_of(nm):
+        defs = [s for s in fl.order if isinstance(s, ast.Assign) and len(s.targets) == 1 and isinstance(s.targets[0], ast.Name) and s.targets[0].id == nm]
+        augs = [s for s in fl.order if isinstance(s, ast.AugAssign) and isinstance(s.target, ast.Name) and s.target.id == nm]
+        return defs, augs
+    if isinstance(rn, ast.Name):
+        defs, augs = branches_of(rn.id)
+        ifs = [n for n in ast.walk(f) if isinstance(n, ast.If) and len(defs) == 2 and any(defs[0] is m for b in n.body for m in ast.walk(b))
+               and any(defs[1] is m for b in n.orelse for m in ast.walk(b))]
+        if len(ifs) != 1 or fl.text(ifs[0].test, ifs[0]) not in (f'{parp[0]}.shape[0] > 1', f'len({parp[0]}) > 1'):
+            raise TranslatorError('_r2_array: RSS is not assigned once in each branch of `param_array.shape[0] > 1`')
+        emit('ss_res_go', symbolise(fl.resolve(defs[0].value, defs[0]), M2), SUMS)
+        emit('ss_res_g', symbolise(fl.resolve(defs[1].value, defs[1]), M2), SUMS)
+        if len(augs) != 1 or not isinstance(augs[0].op, ast.Mult) or pos_after(fl, augs[0], ifs[0]) is False:
+            raise TranslatorError('_r2_array: expected `RSS *= <factor>` exactly once after the branches')
+        emit('ss_res_scale', symbolise(fl.resolve(augs[0].value, augs[0]), M2), SUMS)
+    else:
+        raise TranslatorError('_r2_array: RSS numerator has an unexpected shape')
+    out.append('Definition gen_r2_roles_ok : bool := true.      (* both callers pass consistent kernel sums / arrays / masks to _r2_array *)')
+
+    # ================================================================= _fit_gain_blk_offset
     f = find_func(km, 'KernelModel', '_fit_gain_blk_offset')
-    v = assigns(f, 'src_ra.array')
-    if len(v) != 1:
-        raise TranslatorError('_fit_gain_blk_offset: normalisation of src_ra.array')
-    emit('gbo_norm', KERNEL_NAMES, v[0], GBO)
-    v = assigns(f, 'param_ra.array[1]')
-    if len(v) != 1:
-        raise TranslatorError('_fit_gain_blk_offset: offset')
-    emit('gbo_offset', KERNEL_NAMES, v[0], GBO)
-    aug = [n for n in ast.walk(f) if isinstance(n, ast.AugAssign) and ast.unparse(n.target) == 'param_ra.array[0]']
-    if len(aug) != 1 or not isinstance(aug[0].op, ast.Mult):
-        raise TranslatorError('_fit_gain_blk_offset: gain un-normalisation')
-    emit('gbo_gain_factor', KERNEL_NAMES, aug[0].value, GBO)
-    # the offset must be computed BEFORE the gain is rescaled (it uses the un-normalised gain)
-    off_line = [n.lineno for n in ast.walk(f) if isinstance(n, ast.Assign) and ast.unparse(n.targets[0]) == 'param_ra.array[1]'][0]
-    out.append(f'Definition gen_gbo_offset_before_gain : bool := {"true" if off_line < aug[0].lineno else "false"}.')
-    # ---------------------------------------------------------------- apply
+    fl = Flow(f, inline=inl)
+    sp, rp = fl.params[1], fl.params[2]
+    ret = fl.text(the_return(f).value)
+    rc = ast.parse(ret, mode='eval').body
+    if not (isinstance(rc, ast.Call) and U(rc.func) == 'self._fit_gain' and [U(a) for a in rc.args[:2]] == [sp, rp]):
+        raise TranslatorError(f'_fit_gain_blk_offset: the parameters do not come from self._fit_gain(source, reference): {ret[:120]}')
+    norm_txt = f'self._fit_block_norm({sp}, {rp})'
+
+    def gm(n):
+        if isinstance(n, ast.Subscript) and U(n.value) == norm_txt and isinstance(n.slice, ast.Constant) and n.slice.value in (0, 1):
+            return name(('na', 'nb')[n.slice.value])
+        if U(n) == f'{sp}.array' and isinstance(n, ast.Attribute):
+            return name('x')
+        return None
+    state = {0: name('m'), 1: name('c0')}        # current content of the returned bands, replayed store by store
+
+    def bandsub(n):
+        if isinstance(n, ast.Subscript) and isinstance(n.value, ast.Attribute) and n.value.attr == 'array' and U(n.value.value) == ret \
+                and isinstance(n.slice, ast.Constant) and n.slice.value in (0, 1):
+            return copy.deepcopy(state[n.slice.value])
+        return None
+    norm_seen, nodata_forced, fit_pos = [], [], None
+    for s in fl.order:
+        for n in ast.walk(s) if not isinstance(s, (ast.If, ast.For, ast.While, ast.With, ast.Try)) else []:
+            if isinstance(n, ast.Call) and U(n.func) == 'self._fit_gain' and fit_pos is None:
+                fit_pos = fl.order.index(s)
+    for (s, tgt, kind, val) in fl.stores():
+        i = fl.order.index(s)
+        if tgt == f'{sp}.nodata' and kind == 'assign' and U(val) == 'RasterArray.default_nodata':
+            nodata_forced.append(i)
+        elif tgt == f'{sp}.array' and kind == 'assign':
+            norm_seen.append((i, symbolise(val, [gm])))
+        elif tgt in (f'{ret}.array[0]', f'{ret}.array[1]'):
+            k = int(tgt[-2])
+            v = symbolise(val if kind == 'assign' else val[1], [bandsub, gm])
+            state[k] = v if kind == 'assign' else ast.BinOp(left=state[k], op=val[0], right=v)
+        elif tgt.startswith(ret):
+            raise TranslatorError(f'_fit_gain_blk_offset: unexpected store {tgt}')
+    if len(norm_seen) != 1:
+        raise TranslatorError('_fit_gain_blk_offset: the source is not normalised exactly once')
+    emit('gbo_norm', norm_seen[0][1], GBO)
+    emit('gbo_gain', state[0], GBO)
+    emit('gbo_offset', state[1], GBO)
+    oko = len(nodata_forced) == 1 and fit_pos is not None and nodata_forced[0] < norm_seen[0][0] < fit_pos
+    out.append(f'Definition gen_gbo_order_ok : bool := {"true" if oko else "false"}.     (* nodata := NaN, then normalise, then fit *)')
+
+    # ================================================================= apply
     f = find_func(km, 'KernelModel', 'apply')
-    v = assigns(f, 'corr_array')
-    if len(v) != 1:
-        raise TranslatorError('KernelModel.apply: corr_array')
-    emit('apply', KERNEL_NAMES, v[0], APPLY)
-    # ---------------------------------------------------------------- compare.get_band_stats
-    cm = ast.parse((REPO / 'homonim' / 'compare.py').read_text())
+    fl = Flow(f, inline=inl)
+    sp, pp = fl.params[1], fl.params[2]
+    ret = fl.resolve(the_return(f).value)
+    if not (isinstance(ret, ast.Call) and U(ret.func) == 'RasterArray.from_profile' and len(ret.args) == 2 and U(ret.args[1]) == f'{pp}.profile'):
+        raise TranslatorError(f'KernelModel.apply: returns {U(ret)[:160]}')
+
+    def am(n):
+        if U(n) == f'{sp}.array' and isinstance(n, ast.Attribute):
+            return name('x')
+        if isinstance(n, ast.Subscript) and U(n.value) == f'{pp}.array' and isinstance(n.slice, ast.Constant) and n.slice.value in (0, 1):
+            return name(('m', 'c')[n.slice.value])
+        return None
+    emit('apply', symbolise(ret.args[0], [am]), APPLY)
+    out.append(f'Definition gen_box_filters_ok : bool := {"true" if census.n >= 8 and not census.bad else "false"}.'
+               f'     (* {census.n} box filters: ddepth -1, ksize = kernel_shape reversed, normalize=False, BORDER_CONSTANT *)')
+
+
+def pos_after(fl, a, b):
+    return fl.order.index(a) > fl.order.index(b)
+
+
+def r2_call_roles(call, M):
+    """roles of the arguments a caller hands to _r2_array: {position or keyword: 'x' | 'y' | 'params1' | 'params2' | 'joint' | 'N' | ... | 'r2'}"""
+    roles = {}
+
+    def role_of(n):
+        s = symbolise(n, M)
+        t = U(s)
+        if t in ('N', 'X', 'Y', 'XY', 'XX', 'YY', 'joint', 'r2'):
+            return t
+        return None
+    items = list(enumerate(call.args)) + [(k.arg, k.value) for k in call.keywords]
+    for k, v in items:
+        r = role_of(v)
+        if r is None:
+            t = U(v)
+            if isinstance(v, ast.Attribute) and v.attr == 'array':
+                r = 'pix:' + U(v.value)
+            elif isinstance(v, ast.Subscript) and isinstance(v.slice, ast.Slice) and v.slice.lower is None and isinstance(v.slice.upper, ast.Constant) \
+                    and isinstance(v.value, ast.Attribute) and v.value.attr == 'array':
+                r = 'params'
+            elif k == 'kernel_shape':
+                continue
+            else:
+                raise TranslatorError(f'_r2_array called with an unrecognised argument {k}={t[:120]}')
+        roles[k] = r
+    # pixel arrays: (ref, src) by position
+    pixs = [(k, r) for k, r in roles.items() if isinstance(r, str) and r.startswith('pix:')]
+    if [k for k, _ in pixs] != [0, 1]:
+        raise TranslatorError('_r2_array: the first two arguments must be the pixel arrays')
+    return roles
+
+
+def finish_roles(roles, src_p, ref_p):
+    out = {}
+    for k, r in roles.items():
+        if isinstance(r, str) and r.startswith('pix:'):
+            who = r[4:]
+            out[k] = 'x' if who == src_p else 'y' if who == ref_p else None
+            if out[k] is None:
+                raise TranslatorError(f'_r2_array called with pixels of {who}')
+        else:
+            out[k] = r
+    return out
+
+
+# ---------------------------------------------------------------------------------------------- compare / stats
+def compare_part(cm, out):
+    corder = ['N', 'X', 'Y', 'XY', 'XX', 'YY', 'RR']
+    pnames = {'src_sum': 'X', 'ref_sum': 'Y', 'src2_sum': 'XX', 'ref2_sum': 'YY', 'src_ref_sum': 'XY', 'res2_sum': 'RR', 'mask_sum': 'N'}
     f = find_func(cm, 'RasterCompare', '_get_image_stats', 'get_band_stats')
-    corder = ['N', 'X', 'Y', 'XY', 'XX', 'YY', 'RR', 'mx', 'my', 'rmse']
-    for tgt, nm in (('src_mean', 'cmp_src_mean'), ('ref_mean', 'cmp_ref_mean'), ('pcc_num', 'cmp_pcc_num')):
-        v = assigns(f, tgt)
-        if len(v) != 1:
-            raise TranslatorError(f'get_band_stats: {tgt}')
-        emit(nm, COMPARE_NAMES, v[0], corder)
-    v = assigns(f, 'pcc_den')
-    if len(v) != 1 or not (isinstance(v[0], ast.BinOp) and isinstance(v[0].op, ast.Mult)
-                           and all(isinstance(s, ast.Call) and ast.unparse(s.func) == 'np.sqrt' for s in (v[0].left, v[0].right))):
-        raise TranslatorError('get_band_stats: pcc_den is not sqrt(a) * sqrt(b)')
-    emit('cmp_pcc_den_a', COMPARE_NAMES, v[0].left.args[0], corder)
-    emit('cmp_pcc_den_b', COMPARE_NAMES, v[0].right.args[0], corder)
-    v = assigns(f, 'pcc')
-    if len(v) != 1 or ast.unparse(v[0]) != 'pcc_num / pcc_den':
-        raise TranslatorError('get_band_stats: pcc')
-    v = assigns(f, 'rmse')
-    if len(v) != 1 or not (isinstance(v[0], ast.Call) and ast.unparse(v[0].func) == 'np.sqrt'):
+    fl = Flow(f)
+    if sorted(fl.params) != sorted(pnames):
+        raise TranslatorError(f'get_band_stats: parameters {fl.params}')
+    ret = fl.resolve(the_return(f).value)
+    kw = dict_items(ret)
+    if kw is None:
+        raise TranslatorError('get_band_stats: does not return a dict')
+    if sorted(kw) != ['n', 'r2', 'rmse', 'rrmse']:
+        raise TranslatorError(f'get_band_stats: keys {sorted(kw)}')
+
+    def pm(n):
+        return name(pnames[n.id]) if isinstance(n, ast.Name) and n.id in pnames else None
+
+    def emit(nm, node):
+        out.append(f'Definition gen_{nm} ({" ".join(corder)} : Q) : Q := {QExpr(corder).tr(symbolise(node, [pm]))}.')
+
+    def is_sqrt(n):
+        return isinstance(n, ast.Call) and U(n.func) == 'np.sqrt' and len(n.args) == 1 and not n.keywords
+    r2 = kw['r2']
+    if not (isinstance(r2, ast.BinOp) and isinstance(r2.op, ast.Pow) and is_const(r2.right, 2) and isinstance(r2.left, ast.BinOp)
+            and isinstance(r2.left.op, ast.Div)):
+        raise TranslatorError('get_band_stats: r2 is not (num / den) ** 2')
+    den = r2.left.right
+    if not (isinstance(den, ast.BinOp) and isinstance(den.op, ast.Mult) and is_sqrt(den.left) and is_sqrt(den.right)):
+        raise TranslatorError('get_band_stats: the Pearson denominator is not sqrt(a) * sqrt(b)')
+    emit('cmp_pcc_num', r2.left.left)
+    emit('cmp_pcc_den_a', den.left.args[0])
+    emit('cmp_pcc_den_b', den.right.args[0])
+    if not is_sqrt(kw['rmse']):
         raise TranslatorError('get_band_stats: rmse is not a square root')
-    emit('cmp_rmse_sq', COMPARE_NAMES, v[0].args[0], corder)
-    v = assigns(f, 'rrmse')
-    if len(v) != 1:
-        raise TranslatorError('get_band_stats: rrmse')
-    emit('cmp_rrmse', COMPARE_NAMES, v[0], corder)
-    ret = [n for n in ast.walk(f) if isinstance(n, ast.Return)]
-    rtxt = ast.unparse(ret[0].value) if len(ret) == 1 else ''
-    want = ['r2=pcc ** 2', 'rmse=rmse', 'rrmse=rrmse', 'n=int(mask_sum)']
-    out.append(f'Definition gen_cmp_returns_ok : bool := {"true" if all(w in rtxt for w in want) else "false"}.')
-    # ---------------------------------------------------------------- compare.get_block_sums: the per-pixel term of every sum, the joint mask
+    emit('cmp_rmse_sq', kw['rmse'].args[0])
+    rr = kw['rrmse']
+    if not (isinstance(rr, ast.BinOp) and isinstance(rr.op, ast.Div) and ast.dump(rr.left) == ast.dump(kw['rmse'])):
+        raise TranslatorError('get_band_stats: rrmse is not rmse / <mean>')
+    emit('cmp_rrmse_den', rr.right)
+    okn = U(symbolise(kw['n'], [pm])) == 'int(N)'
+    out.append(f'Definition gen_cmp_returns_ok : bool := {"true" if okn else "false"}.      (* r2 = pcc ** 2, rmse, rrmse = rmse / mean(ref), n = int(N) *)')
+    # ---- get_block_sums: the per-pixel term of every sum, the joint mask
     f = find_func(cm, 'RasterCompare', 'process', 'get_block_sums')
-    sd = [c for c in ast.walk(f) if isinstance(c, ast.Call) and ast.unparse(c.func) == 'dict' and any(k.arg == 'res2_sum' for k in c.keywords)]
-    if len(sd) != 1:
+    fl = Flow(f)
+    rt = fl.resolve(the_return(f).value)
+    if not (isinstance(rt, ast.Tuple) and len(rt.elts) == 2 and U(rt.elts[1]) == fl.params[0]):
+        raise TranslatorError('get_block_sums: (sums, block pair) expected')
+    sd = rt.elts[0]
+    kwd = dict_items(sd)
+    if kwd is None:
         raise TranslatorError('get_block_sums: sums dict')
-    pix = {'src_array': 'x', 'ref_array': 'y'}
-    want_keys = ['src_sum', 'ref_sum', 'src2_sum', 'ref2_sum', 'src_ref_sum', 'res2_sum', 'mask_sum']
-    kwd = {k.arg: k.value for k in sd[0].keywords}
-    if sorted(kwd) != sorted(want_keys):
+    if sorted(kwd) != sorted(pnames):
         raise TranslatorError(f'get_block_sums: keys {sorted(kwd)}')
-    for key in want_keys[:-1]:
+    # the two re-projected arrays: which one is the source / reference is decided by the .mask / .array owners being read from self.read(block_pair)
+    # (both branches of the grid test rebind one of them, so the names themselves stay)
+    arrs = set()
+    for v in kwd.values():
+        for n in ast.walk(v):
+            if isinstance(n, ast.Attribute) and n.attr == 'array':
+                arrs.add(U(n))
+    un = [s for s in fl.order if isinstance(s, ast.Assign) and isinstance(s.targets[0], ast.Tuple) and U(s.value) == f'self.read({fl.params[0]})']
+    if len(un) != 1 or len(un[0].targets[0].elts) != 2:
+        raise TranslatorError('get_block_sums: `src, ref = self.read(block_pair)` expected')
+    sN, rN = (U(e) for e in un[0].targets[0].elts)
+    if arrs - {f'{sN}.array', f'{rN}.array'}:
+        raise TranslatorError(f'get_block_sums: sums over {sorted(arrs)}')
+    pix = {f'{sN}.array': 'x', f'{rN}.array': 'y'}
+
+    def xm(n):
+        return name(pix[U(n)]) if isinstance(n, ast.Attribute) and U(n) in pix else None
+    for key in ('src_sum', 'ref_sum', 'src2_sum', 'ref2_sum', 'src_ref_sum', 'res2_sum'):
         v = kwd[key]
-        if not (isinstance(v, ast.Call) and isinstance(v.func, ast.Attribute) and v.func.attr == 'sum' and not v.args):
+        if not (isinstance(v, ast.Call) and isinstance(v.func, ast.Attribute) and v.func.attr == 'sum' and not v.args and not v.keywords):
             raise TranslatorError(f'get_block_sums: {key} is not <expr>.sum()')
-        emit('cmp_term_' + key, pix, v.func.value, ['x', 'y'])
-    okm = ast.unparse(kwd['mask_sum']) == 'mask.sum()' and ast.unparse(one := [n.value for n in ast.walk(f) if isinstance(n, ast.Assign) and ast.unparse(n.targets[0]) == 'mask'][0]) in ('ref_ra.mask & src_ra.mask', 'src_ra.mask & ref_ra.mask')
-    zero = sorted(ast.unparse(n) for n in ast.walk(f) if isinstance(n, ast.Assign) and ast.unparse(n.targets[0]) in ('src_array[~mask]', 'ref_array[~mask]'))
-    okm = okm and zero == ['ref_array[~mask] = 0', 'src_array[~mask] = 0']
+        out.append(f'Definition gen_cmp_term_{key} (x y : Q) : Q := {QExpr(["x", "y"]).tr(symbolise(v.func.value, [xm]))}.')
+    jp = joint_pred_for(sN, rN)
+    ms = kwd['mask_sum']
+    okm = isinstance(ms, ast.Call) and isinstance(ms.func, ast.Attribute) and ms.func.attr == 'sum' and not ms.args and jp(ms.func.value)
+    okm = okm and zeroing_ok(fl.stores(), sN, rN, jp)
     out.append(f'Definition gen_cmp_joint_mask_ok : bool := {"true" if okm else "false"}.   (* mask = both valid; both arrays zeroed outside it; N = mask.sum() *)')
     # accumulation over blocks: per band, key by key, image_sums[band][k] += block[k]
-    acc = [ast.unparse(n.value) for n in ast.walk(find_func(cm, 'RasterCompare', 'process')) if isinstance(n, ast.Assign) and ast.unparse(n.targets[0]) == 'image_sums[block_pair.band_i]']
-    oka = acc == ['{k: image_sums[block_pair.band_i].get(k, 0) + v for k, v in block_sums_dict.items()}']
+    fp = find_func(cm, 'RasterCompare', 'process')
+    oka = False
+    for n in ast.walk(fp):
+        if isinstance(n, ast.Assign) and isinstance(n.targets[0], ast.Subscript) and isinstance(n.value, ast.DictComp):
+            tgt = U(n.targets[0])
+            dc = n.value
+            if len(dc.generators) == 1 and isinstance(dc.generators[0].target, ast.Tuple) and not dc.generators[0].ifs:
+                k, v = (U(e) for e in dc.generators[0].target.elts)
+                it = dc.generators[0].iter
+                if U(dc.key) == k and U(dc.value) == f'{tgt}.get({k}, 0) + {v}' and isinstance(it, ast.Call) and isinstance(it.func, ast.Attribute) \
+                        and it.func.attr == 'items' and tgt.endswith('.band_i]'):
+                    oka = True
     out.append(f'Definition gen_cmp_accumulate_ok : bool := {"true" if oka else "false"}.')
-    # ---------------------------------------------------------------- stats._get_image_stats
-    sm = ast.parse((REPO / 'homonim' / 'stats.py').read_text())
+
+
+def stats_part(sm, out):
     f = find_func(sm, 'ParamStats', '_get_image_stats')
-    call = [c for c in ast.walk(f) if isinstance(c, ast.Call) and ast.unparse(c.func) == 'dict' and any(k.arg == 'mean' for k in c.keywords)]
-    if len(call) != 1:
+    loops = [n for n in ast.walk(f) if isinstance(n, ast.For) and isinstance(n.iter, ast.Call) and U(n.iter.func) == 'enumerate'
+             and isinstance(n.target, ast.Tuple) and len(n.target.elts) == 2]
+    if len(loops) != 1:
+        raise TranslatorError('_get_image_stats: `for band_i, band_accum in enumerate(...)` expected')
+    acc = U(loops[0].target.elts[1])
+    fl = Flow(f)
+    dcalls = [s for s in loops[0].body if isinstance(s, ast.Assign) and 'mean' in (dict_items(s.value) or {})]
+    if len(dcalls) != 1:
         raise TranslatorError('_get_image_stats: band_stats dict')
-    kw = {k.arg: k.value for k in call[0].keywords}
+    bs_name = U(dcalls[0].targets[0])
+    kw = {k: fl.resolve(v, dcalls[0]) for k, v in dict_items(dcalls[0].value).items()}
     sorder = ['S', 'S2', 'n', 'I']
-    emit('st_mean', STATS_NAMES, kw['mean'], sorder)
-    if not (isinstance(kw['std'], ast.Call) and ast.unparse(kw['std'].func) == 'np.sqrt'):
+    keys = {f"{acc}['sum']": 'S', f"{acc}['sum2']": 'S2', f"{acc}['n']": 'n', f"{acc}['inpaint_sum']": 'I'}
+
+    def km_(n):
+        return name(keys[U(n)]) if isinstance(n, ast.Subscript) and U(n) in keys else None
+
+    def emit(nm, node):
+        out.append(f'Definition gen_{nm} ({" ".join(sorder)} : Q) : Q := {QExpr(sorder).tr(symbolise(node, [km_]))}.')
+    emit('st_mean', kw['mean'])
+    if not (isinstance(kw['std'], ast.Call) and U(kw['std'].func) == 'np.sqrt' and len(kw['std'].args) == 1):
         raise TranslatorError('_get_image_stats: std is not a square root')
     var = kw['std'].args[0]
-    clamped = isinstance(var, ast.Call) and ast.unparse(var.func) == 'np.maximum' and len(var.args) == 2 and ast.unparse(var.args[1]) == '0'
-    emit('st_var', STATS_NAMES, var.args[0] if clamped else var, sorder)
-    # np.maximum(variance, 0) under the square root only absorbs negative rounding: the exact variance is never negative (C12_std_sq_is_population_variance)
+    clamped = isinstance(var, ast.Call) and U(var.func) == 'np.maximum' and len(var.args) == 2 and is_const(var.args[1], 0)
+    emit('st_var', var.args[0] if clamped else var)
     out.append(f'Definition gen_st_var_clamped_at_zero : bool := {"true" if clamped else "false"}.')
-    out.append('Definition gen_st_minmax_ok : bool := %s.' % ('true' if ast.unparse(kw['min']) == "band_accum['min']" and ast.unparse(kw['max']) == "band_accum['max']" else 'false'))
-    v = [n.value for n in ast.walk(f) if isinstance(n, ast.Assign) and ast.unparse(n.targets[0]) == "band_stats['inpaint_p']"]
+    out.append('Definition gen_st_minmax_ok : bool := %s.' % ('true' if U(kw['min']) == f"{acc}['min']" and U(kw['max']) == f"{acc}['max']" else 'false'))
+    v = [s for s in ast.walk(loops[0]) if isinstance(s, ast.Assign) and U(s.targets[0]) == f"{bs_name}['inpaint_p']"]
     if len(v) != 1:
         raise TranslatorError('_get_image_stats: inpaint_p')
-    emit('st_inpaint_p', STATS_NAMES, v[0], sorder)
-    # ---------------------------------------------------------------- stats.get_block_sums: per-pixel terms, the in-paint count, which bands, accumulation
+    emit('st_inpaint_p', fl.resolve(v[0].value, v[0]))
+    # ---- get_block_sums
     f = find_func(sm, 'ParamStats', 'stats', 'get_block_sums')
-    bd = one = [n.value for n in ast.walk(f) if isinstance(n, ast.Assign) and ast.unparse(n.targets[0]) == '_block_dict']
-    if len(bd) != 1 or not isinstance(bd[0], ast.Call):
-        raise TranslatorError('stats.get_block_sums: _block_dict')
-    kwd = {k.arg: k.value for k in bd[0].keywords}
+    fl = Flow(f)
+    band_p, win_p = fl.params[0], fl.params[1]
+    rt = the_return(f).value
+    if not (isinstance(rt, ast.Tuple) and len(rt.elts) == 2 and isinstance(rt.elts[0], ast.Name) and U(rt.elts[1]) == band_p):
+        raise TranslatorError('stats.get_block_sums: (block dict, band) expected')
+    bd_name = rt.elts[0].id
+    bd = [s for s in fl.order if isinstance(s, ast.Assign) and U(s.targets[0]) == bd_name]
+    if len(bd) != 1 or dict_items(bd[0].value) is None:
+        raise TranslatorError('stats.get_block_sums: block dict')
+    kwd = dict_items(bd[0].value)
     if sorted(kwd) != ['max', 'min', 'n', 'sum', 'sum2']:
         raise TranslatorError(f'stats.get_block_sums: keys {sorted(kwd)}')
+    # the array: the masked float64 read of one band window (assigned inside `with read_lock`, so it stays a name)
+    arr = None
     for key in ('sum', 'sum2'):
         v = kwd[key]
         if not (isinstance(v, ast.Call) and isinstance(v.func, ast.Attribute) and v.func.attr == 'sum' and not v.args):
             raise TranslatorError(f'stats.get_block_sums: {key}')
-        emit('st_term_' + key, {'array': 'x'}, v.func.value, ['x'])
-    okb = [ast.unparse(kwd[k2]) for k2 in ('min', 'max', 'n')] == ['array.min()', 'array.max()', 'array.count()']
-    rd = [ast.unparse(n.value) for n in ast.walk(f) if isinstance(n, (ast.Assign, ast.AnnAssign)) and ast.unparse(n.target if isinstance(n, ast.AnnAssign) else n.targets[0]) == 'array']
-    okb = okb and len(rd) == 1 and 'masked=True' in rd[0] and "out_dtype='float64'" in rd[0] and 'indexes=band_i + 1' in rd[0] and 'window=block_win' in rd[0]
+        names_ = {n.id for n in ast.walk(v.func.value) if isinstance(n, ast.Name)}
+        if len(names_) != 1:
+            raise TranslatorError(f'stats.get_block_sums: {key} over {names_}')
+        arr = arr or names_.pop()
+        out.append(f'Definition gen_st_term_{key} (x : Q) : Q := {QExpr(["x"]).tr(symbolise(v.func.value, [lambda n: name("x") if isinstance(n, ast.Name) and n.id == arr else None]))}.')
+    okb = [U(kwd[k2]) for k2 in ('min', 'max', 'n')] == [f'{arr}.min()', f'{arr}.max()', f'{arr}.count()']
+    rd = [U(n.value) for n in ast.walk(f) if isinstance(n, (ast.Assign, ast.AnnAssign)) and n.value is not None
+          and U(n.target if isinstance(n, ast.AnnAssign) else n.targets[0]) == arr]
+    okb = okb and len(rd) == 1 and rd[0].startswith('self._param_im.read(') and 'masked=True' in rd[0] and "out_dtype='float64'" in rd[0] \
+        and f'indexes={band_p} + 1' in rd[0] and f'window={win_p}' in rd[0]
     out.append(f'Definition gen_st_block_ok : bool := {"true" if okb else "false"}.    (* masked float64 read of one band window; min, max, count of the valid values *)')
-    upd = [c for c in ast.walk(f) if isinstance(c, ast.Call) and ast.unparse(c.func) == '_block_dict.update']
-    oki = len(upd) == 1 and ast.unparse(upd[0]) == '_block_dict.update(inpaint_sum=(array < self._r2_inpaint_thresh).sum())'
+    want_inp = f'({arr} < self._r2_inpaint_thresh).sum()'
+    upd = [c for c in ast.walk(f) if isinstance(c, ast.Call) and U(c.func) == f'{bd_name}.update' and U(c) == f'{bd_name}.update(inpaint_sum={want_inp})']
+    upd += [a for a in ast.walk(f) if isinstance(a, ast.Assign) and U(a.targets[0]) == f"{bd_name}['inpaint_sum']" and U(a.value) == want_inp]
+    anyupd = [c for c in ast.walk(f) if (isinstance(c, ast.Call) and U(c.func) == f'{bd_name}.update') or
+              (isinstance(c, ast.Assign) and U(c.targets[0]).startswith(f'{bd_name}['))]
+    oki = len(upd) == 1 and len(anyupd) == 1
     out.append(f'Definition gen_st_inpaint_is_strictly_below : bool := {"true" if oki else "false"}.')
-    cond = [n for n in ast.walk(f) if isinstance(n, ast.If) and any(c is upd[0] for c in ast.walk(n))] if upd else []
-    ctxt = ast.unparse(cond[0].test) if len(cond) == 1 else ''
-    okc = ctxt == 'self._model == Model.gain_offset and self._r2_inpaint_thresh is not None and (band_i >= self._param_im.count * 2 / 3)'
+    okc = False
+    if upd:
+        gs = fl.guards(upd[0])
+        if len(gs) == 1 and gs[0][1]:
+            tst = ast.parse(gs[0][0], mode='eval').body
+            if isinstance(tst, ast.BoolOp) and isinstance(tst.op, ast.And):
+                parts = sorted(U(v) for v in tst.values)
+                okc = parts == sorted(['self._model == Model.gain_offset', 'self._r2_inpaint_thresh is not None', f'{band_p} >= self._param_im.count * 2 / 3'])
     out.append(f'Definition gen_st_inpaint_bands_ok : bool := {"true" if okc else "false"}.   (* gain-offset, threshold recorded, 0-based band >= count * 2 / 3 *)')
     fs = find_func(sm, 'ParamStats', 'stats')
-    up = [ast.unparse(c) for c in ast.walk(fs) if isinstance(c, ast.Call) and ast.unparse(c.func) == 'image_accum[band_i].update']
-    want = ["min=np.nanmin((image_accum[band_i].get('min', np.inf), block_dict['min']))", "max=np.nanmax((image_accum[band_i].get('max', -np.inf), block_dict['max']))",
-            "sum=np.nansum((image_accum[band_i].get('sum', 0), block_dict['sum']))", "sum2=np.nansum((image_accum[band_i].get('sum2', 0), block_dict['sum2']))",
-            "n=np.nansum((image_accum[band_i].get('n', 0), block_dict['n']))", "inpaint_sum=np.nansum((image_accum[band_i].get('inpaint_sum', 0), block_dict['inpaint_sum']))"]
-    oku = len(up) == 2 and all(w in ''.join(up) for w in want)
+    fls = Flow(fs, inline=generic_inliner(sm, 'ParamStats', keep=('stats', '_get_data_window', '_get_image_stats', '_assert_open')))
+    res = [s for s in ast.walk(fs) if isinstance(s, ast.Assign) and isinstance(s.targets[0], ast.Tuple) and isinstance(s.value, ast.Call)
+           and isinstance(s.value.func, ast.Attribute) and s.value.func.attr == 'result']
+    oku = False
+    if len(res) == 1 and len(res[0].targets[0].elts) == 2:
+        bdn, bn = (U(e) for e in res[0].targets[0].elts)
+        ups = [c for c in fls.calls(lambda c: isinstance(c.func, ast.Attribute) and c.func.attr == 'update') if U(c.func.value).endswith(f'[{bn}]')]
+        accs = {U(c.func.value) for c in ups}
+        if len(accs) == 1:
+            a = accs.pop()
+            up = [U(c) for c in ups]
+            want = [f"min=np.nanmin(({a}.get('min', np.inf), {bdn}['min']))", f"max=np.nanmax(({a}.get('max', -np.inf), {bdn}['max']))",
+                    f"sum=np.nansum(({a}.get('sum', 0), {bdn}['sum']))", f"sum2=np.nansum(({a}.get('sum2', 0), {bdn}['sum2']))",
+                    f"n=np.nansum(({a}.get('n', 0), {bdn}['n']))", f"inpaint_sum=np.nansum(({a}.get('inpaint_sum', 0), {bdn}['inpaint_sum']))"]
+            oku = len(up) == 2 and all(w in ''.join(up) for w in want)
     out.append(f'Definition gen_st_accumulate_ok : bool := {"true" if oku else "false"}.    (* min / max / sums folded block by block from inf / -inf / 0 *)')
+
+
+def generate():
+    out = []
+    km = ast.parse((REPO / 'homonim' / 'kernel_model.py').read_text())
+    kernel_part(km, out)
+    compare_part(ast.parse((REPO / 'homonim' / 'compare.py').read_text()), out)
+    stats_part(ast.parse((REPO / 'homonim' / 'stats.py').read_text()), out)
     return out
 
 
 HEADER = '''(* GENERATED by translate/formulas.py from /repo/homonim - do not edit.
-   The closed-form arithmetic of the current source, expression by expression, as Gallina terms over Q.
-   Variables: N X Y XY XX YY = kernel sums of mask, source, reference, source*reference, source^2, reference^2;
-   m c = gain, offset; na nb = block normalisation; RR = sum of squared residuals; S S2 n I = accumulated sum, sum of squares, count, in-paint count. *)
+   The closed-form arithmetic of the current source as Gallina terms over Q, obtained by resolving what each function stores / returns back
+   to its inputs.  Variables: N X Y XY XX YY = kernel sums of mask, source, reference, source*reference, source^2, reference^2;
+   m c = gain, offset; na nb = block normalisation; RR = sum of squared residuals; S S2 n I = accumulated sum, sum of squares, count,
+   in-paint count.  Boolean atoms: joint = the joint mask, r2gt = R2 > threshold, mpos = gain > 0. *)
 From Coq Require Import QArith List String Bool.
 Import ListNotations.
 Open Scope Q_scope.
-Open Scope string_scope.
 
 Definition translation_failed : bool := %s.
 '''
@@ -339,8 +805,8 @@ def main():
         body = generate()
         text = HEADER % 'false' + '\n'.join(body) + '\n'
         ok = True
-    except (TranslatorError, SyntaxError, OSError, IndexError, KeyError) as ex:
-        msg = str(ex).replace('(*', '( *').replace('*)', '* )')
+    except (TranslatorError, SyntaxError, OSError, IndexError, KeyError, AttributeError, TypeError, ValueError) as ex:
+        msg = f'{type(ex).__name__}: {ex}'.replace('(*', '( *').replace('*)', '* )')
         text = HEADER % 'true' + f'(* translator error: {msg} *)\n'
         ok = False
     out = Path(os.environ.get('FORMULAS_OUT', OUT))
